@@ -81,6 +81,19 @@ def check(tag, kind, s):
                 break
 
 
+import signal  # noqa: E402
+
+
+class Budget(Exception):
+    pass
+
+
+def _alarm(signum, frame):
+    raise Budget()
+
+
+signal.signal(signal.SIGALRM, _alarm)
+undecided = []
 configs = []
 for kind in ('scalar', 'vector', 'multi', 'none'):
     for vectorized in (False, True):
@@ -94,16 +107,57 @@ for (kind, vectorized, n_batch, inplace) in configs:
         kind, vectorized, n_batch, inplace)
     prior, like = make(kind, vectorized, inplace)
     try:
+        # first a single batch (a mismatch shows at once), then the full run
+        # under a time budget (a broken tree may never converge)
+        s0 = Sampler(prior, like, n_dim=2, n_live=60, n_batch=n_batch,
+                     n_networks=0, vectorized=vectorized, seed=4)
+        s0.run(n_like_max=n_batch, verbose=False)
+        n0 = len(bad)
+        check(tag + '/first batch', kind, s0)
+        if len(bad) > n0:
+            break
+        signal.alarm(200)
         s = Sampler(prior, like, n_dim=2, n_live=60, n_batch=n_batch,
                     n_networks=0, vectorized=vectorized, seed=4)
         s.run(n_eff=150 if n_batch > 1 else 0, n_like_max=400 if n_batch == 1
               else np.inf, verbose=False)
+        signal.alarm(0)
+    except Budget:
+        undecided.append(tag)
+        continue
     except Exception as e:
+        signal.alarm(0)
         bad.append(dict(where=tag, what='raised ' + type(e).__name__ + ': ' +
                         str(e)[:90]))
         continue
     check(tag, kind, s)
     if len(bad) > 6:
         break
-print(json.dumps(dict(configs=len(configs), violations=bad[:8])))
+for kind in ('scalar', 'vector'):
+    for seed in (0, 1, 2):
+        tag = 'blob={}/tiny live set/seed={}'.format(kind, seed)
+        prior, like = make(kind, False, False)
+        try:
+            signal.alarm(300)
+            s = Sampler(prior, like, n_dim=2, n_live=10, n_batch=2,
+                        n_update=1, n_networks=0, seed=seed)
+            s.run(f_live=1e-3, n_eff=0, verbose=False)
+            n_shells = len(s.bounds)
+            check(tag + '/end of exploration', kind, s)
+            if not bad:
+                s.run(f_live=1e-3, n_shell=6, n_eff=40, verbose=False)
+                check(tag + '/after sampling', kind, s)
+            signal.alarm(0)
+        except Budget:
+            undecided.append(tag)
+        except Exception as e:
+            signal.alarm(0)
+            bad.append(dict(where=tag, what='raised ' + type(e).__name__ +
+                            ': ' + str(e)[:90]))
+        if bad:
+            break
+    if bad:
+        break
+print(json.dumps(dict(configs=len(configs), violations=bad[:8],
+                      undecided=undecided)))
 sys.exit(1 if bad else 0)
